@@ -426,10 +426,13 @@ class C09(Prop):
                         if c <= top: specs.append((g, v, q, read, 0, c))
         return specs
 
-    def product_case(self, rng, sid, spec):
+    def product_case(self, rng, sid, spec, force_zls=None):
         g, v, q, read, start, count = spec
         fc = D.FC_READ if read else rng.choice([D.FC_RESPONSE, D.FC_RESPONSE, D.FC_UNSOL, D.FC_WRITE, D.FC_SELECT, D.FC_OPERATE, D.FC_DIRECT, 22, 7])
         zls = 1 if (g in (110, 111) and v == 0 and rng.chance(1, 2)) else 0
+        if force_zls is not None:
+            zls = force_zls
+            fc = rng.choice([D.FC_RESPONSE, D.FC_UNSOL])
         h = valid_header(rng, fc, g, v, q, start, count, zls) if q in D.QUALIFIERS else None
         if h is not None:
             data, lines, mode = self.fragment(rng, fc, [h])
@@ -512,6 +515,13 @@ class C09(Prop):
             chosen = specs
         for spec in chosen:
             out.append(self.product_case(rng, sid(), spec))
+        # 1b. zero-length octet strings (g110v0 / g111v0) with the parse option ON, more than one object per header:
+        #     the objects carry no octets, only their positions tell them apart (seeded change R5_n: the ranged
+        #     iterator advanced its index only while octets were left)
+        for (g, q) in ((110, D.Q_RANGE8), (110, D.Q_RANGE16), (111, D.Q_PREFIX8), (111, D.Q_PREFIX16)):
+            for (start, count) in ((0, 1), (0, 2), (2, 3), (250, 6) if q != D.Q_RANGE16 else (65530, 6), (7, 40)):
+                out.append(self.product_case(rng, sid(), (g, 0, q, False, start, count), force_zls=1))
+                out.append(self.product_case(rng, sid(), (g, 0, q, False, start, count), force_zls=0))
 
         # 2. multi-header fragments
         for _ in range(60 if quick else 1500):
